@@ -991,6 +991,25 @@ def _reason_class_of_refusal(out: str) -> str:
     return "other"
 
 
+def _anchors(tree: Any) -> Tuple[int, int]:
+    """(start anchors, end anchors) anywhere in the tree: the front end accepts a pattern with exactly one of each (first and last)."""
+    from aas_core_codegen.parse import retree
+
+    class V(retree.PassThroughVisitor):  # type: ignore[misc]
+        def __init__(self) -> None:
+            self.n = [0, 0]
+
+        def visit_symbol(self, node: Any) -> None:
+            if node.kind is retree.SymbolKind.START:
+                self.n[0] += 1
+            elif node.kind is retree.SymbolKind.END:
+                self.n[1] += 1
+
+    v = V()
+    v.visit(tree)
+    return v.n[0], v.n[1]
+
+
 def intersection_stage(ctx: Ctx, accepts_invalid: bool = False) -> None:
     for prop in ("C13", "C14"):
         for c in corpus(prop):
@@ -1017,7 +1036,7 @@ def intersection_stage(ctx: Ctx, accepts_invalid: bool = False) -> None:
         except BaseException:  # noqa
             continue
         # greenery builds automata: keep the repetition counts small (a{1234} & b{17,100} is minutes of work, not a verdict)
-        if t is not None and _accepted_shape(t) and len(p) < 40 and re.search(r"[0-9]{2}", p) is None:
+        if t is not None and _accepted_shape(t) and _anchors(t) == (1, 1) and len(p) < 40 and re.search(r"[0-9]{2}", p) is None:
             acc.append(p)
     for _ in range(ctx.n(40, 600)):
         if len(acc) < 2:
